@@ -27,8 +27,20 @@ const (
 	vPolMinBigInt
 	vPolMaxBigInt
 	vPolSetSumBigInt
+	vPolAddFloat64
+	vPolMinFloat64
+	vPolMaxFloat64
+	vPolSetSumFloat64
 	vPolCount
 )
+
+// float64 policies are explored over a small concrete value set (text
+// conversion of symbolic floats is not encodable); ordinals stay symbolic.
+var vFloats = []float64{1, 1e16, -2.5, 0, 3}
+
+func vIsFloat(p int) bool { return p >= vPolAddFloat64 && p <= vPolSetSumFloat64 }
+
+func vFloatText(f float64) string { return strconv.FormatFloat(f, 'g', 100, 64) }
 
 func vPolicy(p int) (pbsubstreams.Module_KindStore_UpdatePolicy, string) {
 	switch p {
@@ -54,12 +66,22 @@ func vPolicy(p int) (pbsubstreams.Module_KindStore_UpdatePolicy, string) {
 		return pbsubstreams.Module_KindStore_UPDATE_POLICY_MAX, "bigint"
 	case vPolSetSumBigInt:
 		return pbsubstreams.Module_KindStore_UPDATE_POLICY_SET_SUM, "bigint"
+	case vPolAddFloat64:
+		return pbsubstreams.Module_KindStore_UPDATE_POLICY_ADD, "float64"
+	case vPolMinFloat64:
+		return pbsubstreams.Module_KindStore_UPDATE_POLICY_MIN, "float64"
+	case vPolMaxFloat64:
+		return pbsubstreams.Module_KindStore_UPDATE_POLICY_MAX, "float64"
+	case vPolSetSumFloat64:
+		return pbsubstreams.Module_KindStore_UPDATE_POLICY_SET_SUM, "float64"
 	}
 	panic("bad policy")
 }
 
 func vIsNumeric(p int) bool { return p >= vPolAddInt64 }
-func vIsSetSum(p int) bool  { return p == vPolSetSumInt64 || p == vPolSetSumBigInt }
+func vIsSetSum(p int) bool {
+	return p == vPolSetSumInt64 || p == vPolSetSumBigInt || p == vPolSetSumFloat64
+}
 
 func vConfig(p int) *Config {
 	pol, vt := vPolicy(p)
@@ -74,6 +96,7 @@ type vOp struct {
 	ord    uint64 // arbitrary ordinal
 	val    []byte // bytes policies
 	num    int64  // numeric policies
+	fnum   float64 // float64 policies
 	setTag bool   // set_sum: "set:" (true) or "sum:" (false)
 }
 
@@ -87,7 +110,12 @@ func vSymOp(p int, allowDelete bool, valLen int) vOp {
 		return o
 	}
 	o.key = sym.Choice("key", len(vKeys))
-	if vIsNumeric(p) {
+	if vIsFloat(p) {
+		o.fnum = vFloats[sym.Choice("float", sym.Param("FLOATS", len(vFloats)))]
+		if vIsSetSum(p) {
+			o.setTag = sym.Choice("settag", 2) == 1
+		}
+	} else if vIsNumeric(p) {
 		o.num = vSymNum("num")
 		if vIsSetSum(p) {
 			o.setTag = sym.Choice("settag", 2) == 1
@@ -128,6 +156,18 @@ func vRecord(s Store, p int, o vOp) {
 		s.SetMaxBigInt(o.ord, k, vBig(o.num))
 	case vPolSetSumBigInt:
 		s.SetSumBigInt(o.ord, k, vSetSumText(o))
+	case vPolAddFloat64:
+		s.SumFloat64(o.ord, k, o.fnum)
+	case vPolMinFloat64:
+		s.SetMinFloat64(o.ord, k, o.fnum)
+	case vPolMaxFloat64:
+		s.SetMaxFloat64(o.ord, k, o.fnum)
+	case vPolSetSumFloat64:
+		tag := "sum:"
+		if o.setTag {
+			tag = "set:"
+		}
+		s.SetSumFloat64(o.ord, k, []byte(tag+vFloatText(o.fnum)))
 	}
 }
 
@@ -143,6 +183,7 @@ type vState struct {
 	present [3]bool
 	val     [3][]byte // bytes policies
 	num     [3]int64  // numeric policies
+	fnum    [3]float64 // float64 policies
 	isSet   [3]bool   // set_sum: tag of the stored value
 }
 
@@ -166,6 +207,7 @@ func (st *vState) apply(p int, o vOp) {
 				st.present[i] = false
 				st.val[i] = nil
 				st.num[i] = 0
+				st.fnum[i] = 0
 				st.isSet[i] = false
 			}
 		}
@@ -212,6 +254,33 @@ func (st *vState) apply(p int, o vOp) {
 		default:
 			st.num[i] += o.num // keeps the previous tag
 		}
+	case vPolAddFloat64:
+		if st.present[i] {
+			st.fnum[i] += o.fnum
+		} else {
+			st.present[i], st.fnum[i] = true, o.fnum
+		}
+	case vPolMinFloat64:
+		if st.present[i] {
+			st.fnum[i] = min(st.fnum[i], o.fnum)
+		} else {
+			st.present[i], st.fnum[i] = true, o.fnum
+		}
+	case vPolMaxFloat64:
+		if st.present[i] {
+			st.fnum[i] = max(st.fnum[i], o.fnum)
+		} else {
+			st.present[i], st.fnum[i] = true, o.fnum
+		}
+	case vPolSetSumFloat64:
+		switch {
+		case !st.present[i]:
+			st.present[i], st.fnum[i], st.isSet[i] = true, o.fnum, o.setTag
+		case o.setTag:
+			st.fnum[i], st.isSet[i] = o.fnum, true
+		default:
+			st.fnum[i] += o.fnum
+		}
 	}
 }
 
@@ -235,7 +304,19 @@ func vSymPre(b *baseStore, p int, valLen int) vState {
 		}
 		st.present[i] = true
 		var stored []byte
-		if vIsNumeric(p) {
+		if vIsFloat(p) {
+			st.fnum[i] = vFloats[sym.Choice("pre-float", sym.Param("FLOATS", len(vFloats)))]
+			txt := vFloatText(st.fnum[i])
+			if vIsSetSum(p) {
+				st.isSet[i] = sym.Choice("pre-settag", 2) == 1
+				if st.isSet[i] {
+					txt = "set:" + txt
+				} else {
+					txt = "sum:" + txt
+				}
+			}
+			stored = []byte(txt)
+		} else if vIsNumeric(p) {
 			st.num[i] = vSymNum("pre-num")
 			txt := strconv.FormatInt(st.num[i], 10)
 			if vIsSetSum(p) {
@@ -263,7 +344,13 @@ func vCheckRead(p int, st *vState, i int, got []byte, found bool, label string) 
 	if !found || !st.present[i] {
 		return
 	}
-	if vIsNumeric(p) {
+	if vIsFloat(p) {
+		f, err := strconv.ParseFloat(string(got), 64)
+		sym.Assert(err == nil, label+"-parses")
+		if err == nil {
+			sym.Assert(f == st.fnum[i], label+"-float")
+		}
+	} else if vIsNumeric(p) {
 		n, err := strconv.ParseInt(string(got), 10, 64)
 		sym.Assert(err == nil, label+"-parses")
 		if err == nil {
